@@ -85,8 +85,17 @@ impl Cfg {
     pub fn default_like() -> Cfg {
         Cfg { min_pipeline: 60, batch_threshold: 2, read_size: 8192, max_buffer: 1_000_000 }
     }
+    /// the connection configuration as the server derives it from a (validated) PerformanceConfig
     fn real(&self) -> ConnectionConfig {
-        ConnectionConfig { max_buffer_size: self.max_buffer, read_buffer_size: self.read_size, min_pipeline_buffer: self.min_pipeline, batch_threshold: self.batch_threshold }
+        let mut pc = redis_sim::production::PerformanceConfig::default();
+        pc.buffers.read_size = self.read_size;
+        pc.buffers.max_size = self.max_buffer;
+        pc.batching.min_pipeline_buffer = self.min_pipeline;
+        pc.batching.batch_threshold = self.batch_threshold;
+        if let Err(e) = pc.validate() {
+            panic!("the harness generated a configuration that PerformanceConfig::validate rejects: {}", e);
+        }
+        ConnectionConfig::from_perf_config(&pc.buffers, &pc.batching)
     }
 }
 
@@ -294,13 +303,57 @@ fn segmentation(rng: &mut Rng, stream: &[u8], boundaries: &[usize]) -> Vec<Vec<u
     }
 }
 
+/// a legal configuration (PerformanceConfig::validate): read_size >= 1, max_size >= read_size —
+/// including max_size == read_size, read_size + 1 and small multiples of tiny reads
 fn config(rng: &mut Rng) -> Cfg {
+    let read_size = *rng.pick(&[8192usize, 8192, 8192, 64, 64, 16, 7]);
+    let max_buffer = match rng.below(8) {
+        0 => read_size,
+        1 => read_size + 1,
+        2 => 2 * read_size,
+        3 => 3 * read_size + 5,
+        4 if read_size < 8192 => 8192,
+        _ => 1_000_000,
+    };
     Cfg {
         min_pipeline: *rng.pick(&[0usize, 60, 60, 70, 1 << 40]),
         batch_threshold: *rng.pick(&[1usize, 2, 2, 6]),
-        read_size: *rng.pick(&[8192usize, 8192, 64, 7]),
-        max_buffer: 1_000_000,
+        read_size,
+        max_buffer,
     }
+}
+
+/// the reads the scripted stream hands to the handler: every segment in pieces of at most read_size
+fn reads_of(segs: &[Vec<u8>], read_size: usize) -> Vec<usize> {
+    let mut v = Vec::new();
+    for s in segs {
+        let mut left = s.len();
+        while left > 0 {
+            let n = left.min(read_size);
+            v.push(n);
+            left -= n;
+        }
+    }
+    v
+}
+
+/// The overflow guard, stated on the input alone (independent of the model and of the code): before
+/// a read of n bytes the buffer holds the bytes received after the end of the last complete frame;
+/// the connection must answer `-ERR buffer overflow` and close exactly at the first read with
+/// leftover + n > max_buffer_size, and never otherwise.  Returns (index of that read, number of
+/// commands complete before it).
+fn expected_overflow(frame_ends: &[usize], reads: &[usize], max_buffer: usize) -> Option<(usize, usize)> {
+    let mut received = 0usize;
+    for (i, n) in reads.iter().enumerate() {
+        let done = frame_ends.iter().filter(|e| **e <= received).count();
+        let last_end = frame_ends.iter().filter(|e| **e <= received).max().copied().unwrap_or(0);
+        let leftover = received - last_end;
+        if leftover + n > max_buffer {
+            return Some((i, done));
+        }
+        received += n;
+    }
+    None
 }
 
 /// `from_utf8(..).parse::<usize>()`: optional '+', at least one digit, only digits, below 2^64
@@ -520,8 +573,38 @@ fn check_wellformed(cx: &mut Cx, cfg: &Cfg, cmds: &[Vec<Vec<u8>>], segs: &[Vec<u
         }
         End::Eof => {}
     }
-    // twin: every command in its own segment, batching off
+    // the overflow guard: where (if at all) must `-ERR buffer overflow` come?
+    let mut frame_ends = Vec::new();
+    let mut acc = 0usize;
+    for c in cmds {
+        acc += frame(&c.iter().map(|a| &a[..]).collect::<Vec<_>>()).len();
+        frame_ends.push(acc);
+    }
+    let reads = reads_of(segs, cfg.read_size);
+    let exp_ov = expected_overflow(&frame_ends, &reads, cfg.max_buffer);
+    cx.out.count(&format!("cfg:max={}", if cfg.max_buffer == cfg.read_size { "read" } else if cfg.max_buffer == cfg.read_size + 1 { "read+1" } else if cfg.max_buffer < stream_len { "below-stream" } else { "roomy" }));
+    let saw_ov = vals.iter().any(|v| matches!(v, V::E(m) if m == b"ERR buffer overflow"));
     let twin_cfg = Cfg { min_pipeline: 1 << 40, batch_threshold: 1 << 20, read_size: 8192, max_buffer: 1_000_000 };
+    let ov_replay = |what: &str| json!({"op": op_line(cfg, segs), "config": {"read_size": cfg.read_size, "max_buffer_size": cfg.max_buffer, "min_pipeline_buffer": cfg.min_pipeline, "batch_threshold": cfg.batch_threshold},
+        "stream_bytes": stream_len, "frame_ends": frame_ends, "reads": reads, "segments": segs.iter().map(|s| hex(s)).collect::<Vec<_>>(), "observed": line, "expected": what, "source": src});
+    if let Some((ri, done)) = exp_ov {
+        cx.out.count("overflow:expected");
+        // commands complete before the overflowing read are answered, then ONE overflow error, then close
+        let twin_segs: Vec<Vec<u8>> = cmd_frames(&cmds[..done]);
+        let t = cx.runner.run(&twin_cfg, &twin_segs);
+        let (tline, tvals) = line_of(&t);
+        let want_ok = vals.len() == done + 1 && vals[..done] == tvals[..] && matches!(&vals[done], V::E(m) if m == b"ERR buffer overflow");
+        if !want_ok {
+            let sig = if !saw_ov { "C04:overflow:missing" } else if vals.len() > done && vals[..done] != tvals[..] || vals.len() <= done { "C04:overflow:earlier-replies-lost" } else { "C04:overflow:wrong-place" };
+            cx.out.violation(sig, &format!("read {} brings the unparsed bytes above max_buffer_size: the {} commands complete before it must be answered, then one -ERR buffer overflow, then close", ri, done), ov_replay(&format!("{} ; OV", tline)));
+        }
+        return;
+    }
+    if saw_ov {
+        cx.out.violation("C04:overflow:spurious", "the connection answered -ERR buffer overflow and closed although the unparsed bytes plus the bytes read never exceeded max_buffer_size", ov_replay("no overflow error: one reply per command"));
+        return;
+    }
+    // twin: every command in its own segment, batching off
     let twin_segs: Vec<Vec<u8>> = cmds.iter().map(|c| frame(&c.iter().map(|a| &a[..]).collect::<Vec<_>>())).collect();
     let t = cx.runner.run(&twin_cfg, &twin_segs);
     let (tline, tvals) = line_of(&t);
@@ -757,7 +840,7 @@ fn pooled_corpus(cx: &mut Cx) {
         }
     }
     // an earlier client overflows max_buffer_size: the error reply stays in the write buffer
-    let small = Cfg { min_pipeline: 60, batch_threshold: 2, read_size: 8192, max_buffer: 48 };
+    let small = Cfg { min_pipeline: 60, batch_threshold: 2, read_size: 16, max_buffer: 48 };
     let big = Conn { segs: vec![vec![b'x'; 20], vec![b'y'; 40]], fail: None };
     let pings = pipeline_conn(&[vec![b"PING"], vec![b"PING"]], false);
     for pool_size in [1usize, 2, 3, 16] {
@@ -766,7 +849,8 @@ fn pooled_corpus(cx: &mut Cx) {
 }
 
 fn pooled_random(cx: &mut Cx, rng: &mut Rng) {
-    let cfg = config(rng);
+    let mut cfg = config(rng);
+    cfg.max_buffer = 1_000_000;
     let pool_size = *rng.pick(&[1usize, 2, 2, 3, 4, 16]);
     let n = rng.range(2, 5) as usize;
     let mut conns = Vec::new();
@@ -797,6 +881,33 @@ fn pooled_random(cx: &mut Cx, rng: &mut Rng) {
         conns.push(Conn { segs, fail });
     }
     check_pooled(cx, &cfg, pool_size, &conns, "random");
+}
+
+/// max_size == read_size (the extreme PerformanceConfig::validate accepts) and neighbours: a 182-byte
+/// pipeline cut in two at several positions never overflows a buffer limit of 8192 / 182 bytes; a
+/// frame larger than max_size does, after the replies to the commands before it
+fn overflow_corpus(cx: &mut Cx) {
+    let cmds: Vec<Vec<Vec<u8>>> = vec![
+        vec![b"SET".to_vec(), b"key:2".to_vec(), vec![b'v'; 25]], vec![b"GET".to_vec(), b"key:2".to_vec()], vec![b"PING".to_vec()],
+        vec![b"ECHO".to_vec(), vec![b'e'; 33]], vec![b"GET".to_vec(), b"k".to_vec()], vec![b"PING".to_vec()],
+    ];
+    let stream: Vec<u8> = cmd_frames(&cmds).concat();
+    debug_assert_eq!(stream.len(), 182);
+    for (read, max) in [(8192usize, 8192usize), (8192, 8193), (182, 182), (64, 182), (16, 182), (64, 64), (64, 65), (16, 16)] {
+        let cfg = Cfg { min_pipeline: 60, batch_threshold: 2, read_size: read, max_buffer: max };
+        for c in [1usize, 2, 13, 20, 66, 91, 120, 150, 180, 181] {
+            check_wellformed(cx, &cfg, &cmds, &cut(&stream, &[c]), "corpus:overflow-guard");
+        }
+        check_wellformed(cx, &cfg, &cmds, &[stream.clone()], "corpus:overflow-guard");
+    }
+    // a frame that really is larger than max_size
+    let big: Vec<Vec<Vec<u8>>> = vec![vec![b"PING".to_vec()], vec![b"SET".to_vec(), b"k".to_vec(), vec![b'x'; 200]], vec![b"PING".to_vec()]];
+    let bs: Vec<u8> = cmd_frames(&big).concat();
+    for (read, max) in [(16usize, 48usize), (64, 64), (64, 128), (8192, 8192)] {
+        let cfg = Cfg { min_pipeline: 60, batch_threshold: 2, read_size: read, max_buffer: max };
+        check_wellformed(cx, &cfg, &big, &[bs.clone()], "corpus:oversize-frame");
+        check_wellformed(cx, &cfg, &big, &cut(&bs, &[14, 40]), "corpus:oversize-frame");
+    }
 }
 
 fn fixed_corpus(cx: &mut Cx) {
@@ -848,6 +959,7 @@ fn run_inner(a: &Args) {
     let mut cx = Cx { out: Out::new(&a.out), runner: Runner::new() };
     let mut rng = Rng::new(a.seed);
     fixed_corpus(&mut cx);
+    overflow_corpus(&mut cx);
     pooled_corpus(&mut cx);
     // deterministic sweep: GET/SET runs of depth 1..7 around both thresholds, whole / per-command / 1-byte
     for depth in 1..=7usize {
@@ -877,6 +989,8 @@ fn run_inner(a: &Args) {
         let cfg = config(&mut rng);
         let (cmds, stream, bounds) = gen_pipeline(&mut rng);
         if rng.chance(1, 5) {
+            let mut cfg = cfg.clone();
+            cfg.max_buffer = 1_000_000; // the overflow guard is exercised by the well-formed cases
             let (bad, class) = malformed(&mut rng);
             // MULTI prefixes are excluded (inside a transaction nothing is executed before EXEC)
             if cmds.iter().any(|c| c[0].eq_ignore_ascii_case(b"MULTI")) {
